@@ -553,7 +553,9 @@ func c04Exec(c *arshalCase) {
 	hasFormat := strings.Contains(t.String(), "format:")
 	// unnamed numeric zones do not survive time layouts that print a zone abbreviation (a property
 	// of package time), so they are used with the default RFC 3339 representation only
-	v := genGoValue(r, &valCfg{nils: true, numericZones: !hasFormat}, t, 0)
+	// layouts with a two-digit year cannot tell centuries apart (package time again)
+	twoDigitYear := strings.Contains(t.String(), "format:RFC822") || strings.Contains(t.String(), "format:RFC850")
+	v := genGoValue(r, &valCfg{nils: true, numericZones: !hasFormat, nearYears: twoDigitYear}, t, 0)
 	opts := append(c.Opts.options(r), jsonv2.ExperimentalSupportFormatTag(true))
 	c.Omit = omit || c.Opts.Name == "omitzero" || c.Opts.Name == "legacy-omitempty" || c.Opts.Name == "v1"
 	out1, err1 := jsonv2.Marshal(v.Interface(), opts...)
